@@ -1132,7 +1132,7 @@ fn main() {
         reg.add(Enum(Family {
             name: "ContextualHuffman",
             variants: if q {
-                sv(&["order0", "order1", "order2", "order2+serialize", "order1+serialize", "order0+serialize"])
+                sv(&["order0", "order1", "order2", "order2+serialize", "order0+serialize"])
             } else {
                 sv(&["order0", "order1", "order2", "order1+serialize", "order2+serialize", "order0+serialize"])
             },
@@ -1142,7 +1142,7 @@ fn main() {
         }));
         reg.add(Enum(Family {
             name: "ContextualHuffman::encode_xN/decode_xN",
-            variants: sv(&["x1", "x2", "x4", "x8", "x2+serialize", "x8+serialize"]),
+            variants: if q { sv(&["x1", "x2", "x4", "x8", "x8+serialize"]) } else { sv(&["x1", "x2", "x4", "x8", "x8+serialize", "x2+serialize"]) },
             trains: if q { tr3.clone() } else { tr4.clone() },
             space: il.clone(),
             run: run_interleaved,
